@@ -75,6 +75,14 @@ CheckMetrics(e) ==
     /\ M(e.dfs_edges = [j \in 1..Len(RefEdges(t, t.root, {})) |->
                           LET r == RefEdges(t, t.root, {})[j] IN <<r.src, r.label, r.dest>>],
          "dfs_edge_iter differs from the reference edge traversal", "dfs_edge_iter")
+    /\ M("dfs_nodes" \notin DOMAIN e \/ e.dfs_nodes = [j \in 1..Len(RefDfs(t, t.root, 0, 0, {})) |-> LET r == RefDfs(t, t.root, 0, 0, {})[j] IN <<r.depth, r.idx, r.rem>>],
+         "dfs_iter differs from the reference pre-order traversal", "dfs_iter")
+    /\ M("bfs_wrap" \notin DOMAIN e \/ e.bfs_wrap = [j \in 1..Len(RefBfs(t, t.root, {})) |-> LET r == RefBfs(t, t.root, {})[j] IN <<r.depth, r.idx, r.rem>>],
+         "TraversalIter over Bfs differs from the reference level-order traversal", "bfs_wrap")
+    /\ M("node_indices_rev" \notin DOMAIN e \/ (/\ e.node_indices_rev = Reverse(SortedSeq(Occ(t))) /\ e.terminal_indices_rev = Reverse(SortedSeq(T))
+                                                /\ e.decision_indices_rev = Reverse(SortedSeq(Decisions(t))) /\ e.edges_rev = Reverse(e.edges)),
+         "a reversed index-order iterator is not the reverse of the forward one", "rev")
+    /\ M("terminals_mut" \notin DOMAIN e \/ e.terminals_mut = PairsOf(T, t), "terminals_mut() differs", "terminals_mut")
     /\ M(e.num_terminals = n, "num_terminals differs", "num_terminals")
     /\ M(e.len = Cardinality(Occ(t)), "len differs from the number of stored nodes", "len")
     /\ M(e.depth = TreeDepth(t), "depth differs from the longest root path", "depth")
